@@ -168,7 +168,21 @@ def run(ctx):
             break
 
 
+_run_core = run
+
+
+def run(ctx):
+    _run_core(ctx)
+    if ctx.n_new() == 0 and ctx.driver_ok:
+        from harness.common import run_demo
+        run_demo(ctx, 'demo_cnetlearn.py', ['--n', 150 if ctx.tier == 'quick' else 2500, '--seed', ctx.seed], 'c18-learner-vs-model',
+                 'the three cutset-network learners against the Lean learner machine replaying their decisions (tree, exact weights, leaf rows)', env_extra=None)
+
+
 def replay(rep):
+    if rep['replay'].get('kind') == 'demo':
+        from harness.common import replay_demo
+        return replay_demo(rep['replay'])
     r = rep['replay']
     X = np.array(r['data'], dtype=np.float32)
     kw = r['args']
